@@ -529,6 +529,9 @@ struct Env {
             checkResend(x.all, up);
         } else {
             checkResend(x.uncovered, up);
+            // a covered tracked IQ request is confirmed now; its report goes to the IQ manager (not observable)
+            pend.erase(std::remove_if(pend.begin(), pend.end(), [&](int id) {
+                return pk[id].iq && std::find(coveredByFailed.begin(), coveredByFailed.end(), id) != coveredByFailed.end(); }), pend.end());
         }
         coveredByFailed.clear();
         // fresh numbering 1..n in the original order (of what is still pending)
